@@ -184,8 +184,9 @@ class TransposePermutationLinearOperator(AbstractPermutationLinearOperator):
         return self._dtype
 
     def type(self: LinearOperator, dtype: torch.dtype) -> LinearOperator:
-        self._dtype = dtype
-        return self
+        res = self.__class__(m=self.m)
+        res._dtype = dtype
+        return res
 
     @property
     def device(self) -> Optional[torch.device]:
